@@ -79,7 +79,7 @@ def _ut_post(c):
   return z3.And(
       is_entry(c, e, c['param_name'], CK_UPDATE_TAGS),
       # the recorded tag set is a fresh snapshot with the same members
-      is_VRef(fs), ref(fs) >= c.old.alloc,
+      is_VRef(fs), ref(fs) >= c.old.alloc, ref(fs) < h.alloc,
       h.hasarr(ref(fs)) == c.old.hasarr(ref(c['updated_tags'])),
       counter(h) == counter(c.old) + 1, GlobalsInv(h),
       h.fld(ref(TRACKING_STATE), 'enabled') == c.old.fld(ref(TRACKING_STATE), 'enabled'))
@@ -193,7 +193,15 @@ def _hist_mod(c):
           z3.If(h0.has(H, key), hist_list(h0, H, key), ref(NOTHING))]
 
 
-def _add_contract(cid, qual, kind, value_of, extra_req=None):
+def _snapshot(c, e):
+  """The entry's new_value is a fresh frozen copy of the tag set passed in."""
+  h = c.heap
+  fs = h.fld(ref(e), 'new_value')
+  return z3.And(is_VRef(fs), ref(fs) >= c.old.alloc, ref(fs) < h.alloc,
+                h.hasarr(ref(fs)) == c.old.hasarr(ref(c['updated_tags'])))
+
+
+def _add_contract(cid, qual, kind, value_of, extra_req=None, extra_post=None):
   def req(c):
     r = [GlobalsInv(c.old), HistoryObj(c.old, c['self'])]
     if extra_req:
@@ -211,11 +219,15 @@ def _add_contract(cid, qual, kind, value_of, extra_req=None):
                                     == h0.len(hist_list(h0, ref(c['self']), c['param_name'])),
                                     h.eltarr(hist_list(h0, ref(c['self']), c['param_name']))
                                     == h0.eltarr(hist_list(h0, ref(c['self']), c['param_name'])))))
+    H_ = ref(c['self'])
+    n0 = z3.If(h0.has(H_, c['param_name']), h0.len(hist_list(h0, H_, c['param_name'])), z3.IntVal(0))
+    appended = HistAppended(c, c['self'], c['param_name'], kind, value_of(c) if value_of else None)
+    if extra_post is not None:
+      appended = z3.And(appended, extra_post(c, h.elt(hist_list(h, H_, c['param_name']), n0)))
     return z3.And(
         GlobalsInv(h), HistoryObj(h, c['self']),
         h.fld(ref(TRACKING_STATE), 'enabled') == h0.fld(ref(TRACKING_STATE), 'enabled'),
-        z3.If(on, HistAppended(c, c['self'], c['param_name'], kind,
-                               value_of(c) if value_of else None), same))
+        z3.If(on, appended, same))
 
   contract(cid, F, qual, requires=req, ensures=post, mod=_hist_mod,
            cases=lambda c: [tracking_on(c.old), c.old.has(ref(c['self']), c['param_name'])],
@@ -228,7 +240,7 @@ _add_contract('history.History.add_new_value', 'History.add_new_value', CK_NEW_V
 _add_contract('history.History.add_deleted_value', 'History.add_deleted_value', CK_NEW_VALUE,
               lambda c: DELETED)
 _add_contract('history.History.add_updated_tags', 'History.add_updated_tags', CK_UPDATE_TAGS,
-              None, extra_req=lambda c: isref(c.old, c['updated_tags'], 'set'))
+              None, extra_req=lambda c: isref(c.old, c['updated_tags'], 'set'), extra_post=_snapshot)
 
 
 # --- suspend_tracking ---------------------------------------------------------------------------
